@@ -18,6 +18,8 @@ def run(ctx):
     LK.k1_finder_labels(ctx, K)
     LK.k8_strategy_parent_pairing(ctx, modules=("bijection", "specification_extrator"))
     LK.k9_index_order(ctx)
+    LK.k11_extractor_start(ctx, K)
+    ctx.floor("K11", 1)
     ctx.floor("K8", 4)
     ctx.floor("K9", 2)
     ctx.floor("K2", 3)
